@@ -84,6 +84,40 @@ theorem evals_tryLua_unsup {α} {x : M α} {s w s1} (h : Evals x s (.error (.uns
   simp only [tryLua, ExceptT.run, ExceptT.mk, bind, StateT.bind, StateT.run] at *
   simp [h, pure, StateT.pure]
 
+theorem evals_tryLua_other {α} {x : M α} {s e s1} (h : Evals x s (.error e) s1) (he : ∀ v hd, e ≠ .lua v hd) :
+    Evals (tryLua x) s (.error e) s1 := by
+  unfold Evals at *
+  simp only [tryLua, ExceptT.run, ExceptT.mk, bind, StateT.bind, StateT.run] at *
+  cases e with
+  | lua v hd => exact absurd rfl (he v hd)
+  | unsupported w => simp [h, pure, StateT.pure]
+  | yield vs => simp [h, pure, StateT.pure]
+  | closing => simp [h, pure, StateT.pure]
+
+theorem evals_tryTbc_yield {α} {x : M α} {s vs s1} (h : Evals x s (.error (.yield vs)) s1) :
+    Evals (tryTbc x) s (.error (.yield vs)) s1 := by
+  unfold Evals at *
+  simp only [tryTbc, ExceptT.run, ExceptT.mk, bind, StateT.bind, StateT.run] at *
+  simp [h, pure, StateT.pure]
+
+theorem evals_tryCo_err {x : M (List Val)} {s v hd s1} (h : Evals x s (.error (.lua v hd)) s1) :
+    Evals (tryCo x) s (.ok (.err v)) s1 := by
+  unfold Evals at *
+  simp only [tryCo, ExceptT.run, ExceptT.mk, bind, StateT.bind, StateT.run] at *
+  simp [h, pure, StateT.pure]
+
+theorem evals_tryCo_yield {x : M (List Val)} {s vs s1} (h : Evals x s (.error (.yield vs)) s1) :
+    Evals (tryCo x) s (.ok (.yielded vs)) s1 := by
+  unfold Evals at *
+  simp only [tryCo, ExceptT.run, ExceptT.mk, bind, StateT.bind, StateT.run] at *
+  simp [h, pure, StateT.pure]
+
+theorem evals_tryCo_ret {x : M (List Val)} {s vs s1} (h : Evals x s (.ok vs) s1) :
+    Evals (tryCo x) s (.ok (.ret vs)) s1 := by
+  unfold Evals at *
+  simp only [tryCo, ExceptT.run, ExceptT.mk, bind, StateT.bind, StateT.run] at *
+  simp [h, pure, StateT.pure]
+
 /-- a finished computation only grows the store -/
 theorem Evals.grows {α} {x : M α} (hx : Grows x) {s r s'} (h : Evals x s r s') : Store.Le s s' :=
   hx.out s r s' h
@@ -93,28 +127,54 @@ theorem Evals.mono {α} {x y : M α} (hxy : Lean.Order.PartialOrder.rel x y) {s 
     Evals y s r s' :=
   M.eq_of_le hxy s h
 
-/-! ### store primitives -/
+/-! ### store primitives, on the main thread (no coroutine is running or being re-executed) -/
 
-theorem evals_allocCell (v : Val) (s : Store) :
+/-- the main thread is running live: nothing is being replayed and nobody records -/
+def Store.Main (s : Store) : Prop := s.replay = [] ∧ s.recs = []
+
+theorem Store.Main.record {s : Store} (h : s.Main) (e : LogEntry) : s.record e = s := by
+  unfold Store.record; rw [h.2]
+
+macro "prim_eval" : tactic => `(tactic|
+  simp [Evals, ExceptT.run, bind, ExceptT.bind, ExceptT.mk, ExceptT.bindCont, StateT.run, StateT.bind, get, getThe,
+    MonadStateOf.get, liftM, monadLift, MonadLift.monadLift, ExceptT.lift, StateT.get, Functor.map, StateT.map, pure, StateT.pure,
+    set, MonadStateOf.set, StateT.set, ExceptT.pure, modify, modifyGet, MonadStateOf.modifyGet, StateT.modifyGet,
+    Store.record, *])
+
+theorem evals_allocCell (v : Val) (s : Store) (hm : s.Main) :
     Evals (allocCell v) s (.ok s.cells.size) { s with cells := s.cells.push v } := by
-  simp [Evals, allocCell, ExceptT.run, bind, ExceptT.bind, ExceptT.mk, ExceptT.bindCont, StateT.run, StateT.bind, get, getThe,
-    MonadStateOf.get, liftM, monadLift, MonadLift.monadLift, ExceptT.lift, StateT.get, Functor.map, StateT.map, pure, StateT.pure,
-    set, MonadStateOf.set, StateT.set, ExceptT.pure]
+  have h1 := hm.1
+  have h3 := hm.2
+  unfold allocCell
+  prim_eval
 
-theorem evals_readCell (i : Nat) (s : Store) : Evals (readCell i) s (.ok (s.cells.getD i .nil)) s := by
-  simp [Evals, readCell, ExceptT.run, bind, ExceptT.bind, ExceptT.mk, ExceptT.bindCont, StateT.run, StateT.bind, get, getThe,
-    MonadStateOf.get, liftM, monadLift, MonadLift.monadLift, ExceptT.lift, StateT.get, Functor.map, StateT.map, pure, StateT.pure,
-    ExceptT.pure]
+theorem evals_readCell (i : Nat) (s : Store) (hm : s.Main) : Evals (readCell i) s (.ok (s.cells.getD i .nil)) s := by
+  have h1 := hm.1
+  have h3 := hm.2
+  unfold readCell
+  prim_eval
 
-theorem evals_writeCell (i : Nat) (v : Val) (s : Store) :
+theorem evals_writeCell (i : Nat) (v : Val) (s : Store) (hm : s.Main) :
     Evals (writeCell i v) s (.ok ()) { s with cells := s.cells.setIfInBounds i v } := by
-  simp [Evals, writeCell, ExceptT.run, StateT.run, modify, modifyGet, MonadStateOf.modifyGet, liftM, monadLift, MonadLift.monadLift,
-    ExceptT.lift, StateT.modifyGet, Functor.map, StateT.map, pure, StateT.pure, ExceptT.mk, bind, StateT.bind]
+  have h1 := hm.1
+  have h3 := hm.2
+  unfold writeCell
+  prim_eval
 
-theorem evals_allocClosure (c : Closure) (s : Store) :
+theorem evals_getS (s : Store) : Evals getS s (.ok s) s := by
+  unfold getS; prim_eval
+
+theorem evals_nextLog_live (s : Store) (h : s.replay = []) : Evals nextLog s (.ok none) s := by
+  unfold nextLog; prim_eval
+
+theorem evals_modify (f : Store → Store) (s : Store) : Evals (modify f : M Unit) s (.ok ()) (f s) := by
+  prim_eval
+
+theorem evals_allocClosure (c : Closure) (s : Store) (hm : s.Main) :
     Evals (allocClosure c) s (.ok s.closures.size) { s with closures := s.closures.push c } := by
-  simp [Evals, allocClosure, ExceptT.run, bind, ExceptT.bind, ExceptT.mk, ExceptT.bindCont, StateT.run, StateT.bind, get, getThe,
-    MonadStateOf.get, liftM, monadLift, MonadLift.monadLift, ExceptT.lift, StateT.get, Functor.map, StateT.map, pure, StateT.pure,
-    set, MonadStateOf.set, StateT.set, ExceptT.pure]
+  have h1 := hm.1
+  have h3 := hm.2
+  unfold allocClosure
+  prim_eval
 
 end GoluaVerif.Spec.Lua
